@@ -160,8 +160,12 @@ func c13RouteRuns(ctors []c13ReplCtor) (runs []c13RouteRun, unknown []string) {
 				}
 				sb.WriteString(")\n\nvar _ = reflect.ValueOf\n\nfunc main() {\n\tdefer func() {\n\t\tif r := recover(); r != nil {\n\t\t\tprint(\"C13-RECOVERED\")\n\t\t} else {\n\t\t\tprint(\"C13-NOPANIC\")\n\t\t}\n\t}()\n\tvar b bytes.Buffer\n\t_ = b\n")
 				sb.WriteString("\tl := " + call + "\n")
-				for _, st := range strings.Split(body, "; ") {
-					sb.WriteString("\t" + st + "\n")
+				if strings.Contains(body, "for ") {
+					sb.WriteString("\t" + body + "\n") // the clauses of a for statement stay on one line
+				} else {
+					for _, st := range strings.Split(body, "; ") {
+						sb.WriteString("\t" + st + "\n")
+					}
 				}
 				sb.WriteString("\tprint(\"C13-RETURNED\")\n}\n")
 				runs = append(runs, c13RouteRun{Ctor: c, Route: r, Meth: m.Meth, Src: sb.String()})
